@@ -3,6 +3,10 @@
 import json, subprocess
 
 CHECKS = {
+ "C03": dict(level="exploration", design="§4 C03",
+   technique="runtime monitoring: deterministic request scheduler in the instrumented store (exhaustive DFS over version-namespace interleavings for two-client configurations, random priorities over all requests for 3-4 clients) + porcupine linearizability check of the recorded commit/open history against a grow-only set; -race build",
+   text="Commits and opens are recorded with call/return at the scheduler's logical time; each history must be linearizable as a grow-only set whose reads return exactly the current set (so an opener can neither miss a commit that completed before it began nor show a state such as the empty table), and after the clients stop a read-write and a read-only open must contain every acknowledged marker. Two-client configurations are enumerated completely at the granularity of root/ requests; larger ones are sampled.",
+   note="Assumes atomic single-page LIST and immutable content-addressed node objects (asserted online); exhaustive per configuration only; porcupine timeouts are inconclusive."),
  "C04": dict(level="fault_enumeration", design="§4 C04",
    technique="runtime monitoring with fault injection: crash after every mutating storage request of a commit (transaction, merge-on-open, vacuum), recovery opens compared with recorded before/after contents, bucket walk of current versions",
    text="For each subject the number K of mutating requests is measured fault-free, then every k in 0..K is executed: the client dies right after its k-th PUT/DELETE, the connection is abandoned, and a read-only open, a read-write recovery open and a further read-only open of the frozen bucket must succeed and show exactly the old or the new contents, the same in all three, the new ones if the commit had been acknowledged. Enumeration over k is complete per subject; subjects are sampled.",
